@@ -257,10 +257,10 @@ def classify(wire, lp_mode='lib'):
             if not lp.fragment:
                 return {'kind': 'junk', 'why': 'idle'}
             if lp.nack:
-                if lp.nack_reason is None:
-                    return {'kind': 'unclear'}
+                # NDNLPv2: a Nack header without a NackReason element means reason None (0)
                 name, _, _, _ = enc.parse_interest(lp.fragment, with_tl=True)
-                return {'kind': 'nack', 'name': [bytes(c) for c in name], 'reason': lp.nack_reason, 'lp': True}
+                return {'kind': 'nack', 'name': [bytes(c) for c in name],
+                        'reason': 0 if lp.nack_reason is None else lp.nack_reason, 'lp': True}
             c = _classify(lp.fragment)
             c['lp'] = True
             if c['kind'] == 'interest':
@@ -298,14 +298,14 @@ def _classify(wire):
         lp = True
         frag = lpv.fragment
         token = bytes(lpv.pit_token) if lpv.pit_token is not None else None
-        if lpv.nack is not None and lpv.nack.nack_reason is None:
-            return {'kind': 'unclear'}
         if frag is None or len(frag) == 0:
             return {'kind': 'junk'}
         frag = bytes(frag)
         if lpv.nack is not None:
+            # NDNLPv2: a Nack header without a NackReason element means reason None (0)
             name, _, _, _ = enc.parse_interest(frag, with_tl=True)
-            return {'kind': 'nack', 'name': [bytes(c) for c in name], 'reason': lpv.nack.nack_reason, 'lp': True}
+            return {'kind': 'nack', 'name': [bytes(c) for c in name],
+                    'reason': 0 if lpv.nack.nack_reason is None else lpv.nack.nack_reason, 'lp': True}
         inner = frag
         typ, _ = enc.parse_tl_num(inner, 0)
     else:
@@ -503,7 +503,12 @@ class PipeWorld(World):
         validator = self.make_validator(op.get('validator'), ('express', iid))
         kwargs = dict(can_be_prefix=op.get('cbp', False), must_be_fresh=op.get('mbf', False),
                       lifetime=op.get('lifetime', 4000), nonce=1000 + iid)
-        ev = self.log('express', id=iid, name=comps, cbp=op.get('cbp', False), lifetime=kwargs['lifetime'],
+        pobj = None
+        if op.get('param_obj'):
+            # the caller keeps ONE InterestParam object, passes it in and re-uses (edits) it for its next Interest
+            pobj = enc.InterestParam(**kwargs)
+            kwargs = {'interest_param': pobj}
+        ev = self.log('express', id=iid, name=comps, cbp=op.get('cbp', False), lifetime=op.get('lifetime', 4000),
                       running=bool(self.face.running))
         self.tok(f'E{iid}')
         ntx = len(self.tx)
@@ -520,6 +525,11 @@ class PipeWorld(World):
                 coro = self.app.express(comps, validator, **kwargs)
             else:
                 coro = self.app.express_interest(comps, validator=validator, **kwargs)
+            if pobj is not None:
+                pobj.can_be_prefix = not pobj.can_be_prefix
+                pobj.must_be_fresh = not pobj.must_be_fresh
+                pobj.lifetime = 1 if (pobj.lifetime or 0) > 1 else 777
+                pobj.nonce = 7
             if len(self.tx) > ntx:
                 try:
                     sent = tlvref.parse_interest(self.tx[ntx])
